@@ -25,6 +25,10 @@ Inductive outcome :=
 | RanFailed        (* Run is called, the protocol starts and fails / is aborted *)
 | RanSucceeded     (* Run is called, the protocol completes, the new share is stored *)
 | Refused          (* Execute refuses the request: the session id is already pending *)
+| Rerun            (* Run is called, returns a retryable error (SubsetError, CommunicationError,
+                      tss.Error), and tss.Coordinator (handleError -> retry / waitForStart) calls Run
+                      A SECOND TIME ON THE SAME OBJECT; only processes with Retryable() = true, i.e. the
+                      signing kinds, are run again *)
 | ConstructorFails. (* the constructor returns an error - the key share cannot be read (file missing,
                       corrupt, unreadable) or, FROST signing, the tweak is malformed: no process
                       exists, Coordinator.Execute is never called *)
@@ -46,6 +50,7 @@ Definition feasible (k : kind) (o : outcome) : bool :=
   match o, k with
   | ParamsRejected, (EcdsaKeygen | FrostKeygen) => false
   | ConstructorFails, k => is_signing k
+  | Rerun, k => is_signing k
   | _, _ => true
   end.
 
@@ -64,7 +69,11 @@ Definition feasible_in (sh : share) (k : kind) (o : outcome) : bool :=
    end).
 
 Definition run_called (o : outcome) : bool :=
-  match o with ParamsRejected | RanFailed | RanSucceeded => true | _ => false end.
+  match o with ParamsRejected | RanFailed | RanSucceeded | Rerun => true | _ => false end.
+
+(* Run is entered a second time on the same object *)
+Definition run_again (o : outcome) : bool :=
+  match o with Rerun => true | _ => false end.
 
 Definition ctor_events (k : kind) : list ev :=
   match k with
@@ -98,7 +107,10 @@ Definition session_events (v : variant) (k : kind) (o : outcome) : list ev :=
   match o with
   | ConstructorFails => []     (* the constructor's own events were everything: signing [L; Get; U] *)
   | Refused => match v with Old => [] | New => stop_events v k false end
-  | _ => (if run_called o then run_events k o else []) ++ stop_events v k (run_called o)
+  | _ => (if run_called o then run_events k o else []) ++
+         (* the signing kinds read the share in the constructor only: a second Run touches neither
+            the lock nor the share *)
+         (if run_again o then run_events k o else []) ++ stop_events v k (run_called o)
   end.
 
 (* --- Go's sync.Mutex --- *)
@@ -159,8 +171,18 @@ Definition all_feasible (ss : list (kind * outcome)) : bool :=
 Definition all_feasible_in (ss : list (share * (kind * outcome))) : bool :=
   forallb (fun s => feasible_in (fst s) (fst (snd s)) (snd (snd s))) ss.
 
+(* every read / write of the share happens while the lock is held (whatever the kind of process) *)
+Fixpoint locked_access (h : bool) (l : list ev) : bool :=
+  match l with
+  | [] => true
+  | L :: r => locked_access true r
+  | U :: r => locked_access false r
+  | (Get | Store) :: r => h && locked_access h r
+  | _ :: r => locked_access h r
+  end.
+
 Definition sequence_ok (l : list ev) : bool :=
-  mres_free (mrun false l) && Nat.eqb (count is_L l) (count is_U l).
+  mres_free (mrun false l) && Nat.eqb (count is_L l) (count is_U l) && locked_access false l.
 
 (* ------------------------------------------------------------------------------------------ *)
 (* Concurrent sessions on one mutex: thread t executes the event list [prog t]; a schedule is a
@@ -211,3 +233,73 @@ Fixpoint bracketed (h : bool) (l : list ev) : bool :=
   | (Get | Store) :: r => h && bracketed h r
   | _ :: r => bracketed h r
   end.
+
+(* ------------------------------------------------------------------------------------------ *)
+(* The merged ledger of sessions that OVERLAP on one store (contention): what the steps of a
+   schedule actually did, in order, each event with the thread (session) it belongs to.  A Lock of
+   a held mutex does not happen (the thread stays blocked), so it leaves no entry.              *)
+Definition cstep_ev (st : cstate) (t : nat) : option ev :=
+  match rest st t with
+  | [] => None
+  | L :: _ => match owner st with None => Some L | Some _ => None end
+  | e :: _ => Some e
+  end.
+
+Fixpoint ctrace (sched : list nat) (st : cstate) : list (nat * ev) :=
+  match sched with
+  | [] => []
+  | t :: r =>
+      match cstep_ev st t with
+      | Some e => (t, e) :: ctrace r (cstep st t)
+      | None => ctrace r (cstep st t)
+      end
+  end.
+
+Definition owned_by (o : option nat) (t : nat) : bool :=
+  match o with Some u => Nat.eqb u t | None => false end.
+
+(* THE JUDGE of a merged ledger, from owner o: a Lock is recorded only when the mutex was free, an
+   Unlock only by the thread that holds it (never of the free mutex: fatal; never of somebody
+   else's lock: that holder would no longer be exclusive), the share is read / written only by the
+   thread that holds the lock, and when everything has ended the mutex is free. *)
+Fixpoint tguard (o : option nat) (tr : list (nat * ev)) : bool :=
+  match tr with
+  | [] => match o with None => true | Some _ => false end
+  | (t, e) :: r =>
+      match e with
+      | L => match o with None => tguard (Some t) r | Some _ => false end
+      | U => owned_by o t && tguard None r
+      | Get | Store => owned_by o t && tguard o r
+      | RunBegin | RunEnd => tguard o r
+      end
+  end.
+
+Definition proj (t : nat) (tr : list (nat * ev)) : list ev :=
+  map snd (filter (fun x => Nat.eqb (fst x) t) tr).
+
+Definition merged_ok (tr : list (nat * ev)) : bool :=
+  tguard None tr && Nat.eqb (count is_L (map snd tr)) (count is_U (map snd tr)).
+
+(* the mutex owner after a prefix of a merged ledger *)
+Fixpoint owner_after (o : option nat) (tr : list (nat * ev)) : option nat :=
+  match tr with
+  | [] => o
+  | (t, L) :: r => owner_after (Some t) r
+  | (_, U) :: r => owner_after None r
+  | _ :: r => owner_after o r
+  end.
+
+(* threads = sessions: thread i runs the i-th session, every other thread does nothing *)
+Definition plan_of (ss : list (kind * outcome)) (t : nat) : list (kind * outcome) :=
+  match nth_error ss t with Some s => [s] | None => [] end.
+
+(* per-thread part of the judge: the thread's own events are guarded for its kind (keygen and
+   resharing hold the lock from before they do anything in Run until after Run returned) *)
+Fixpoint threads_guarded (i : nat) (ss : list (kind * outcome)) (tr : list (nat * ev)) : bool :=
+  match ss with
+  | [] => true
+  | s :: r => guarded (fst s) false false (proj i tr) && threads_guarded (S i) r tr
+  end.
+
+Definition contention_ok (ss : list (kind * outcome)) (tr : list (nat * ev)) : bool :=
+  merged_ok tr && threads_guarded 0 ss tr.
